@@ -1,4 +1,4 @@
-\* repaired protocol, 1 connection x 2 callers, heads 0..3, clock 0..4
+\* repaired protocol = the code as it is now (all Fix* = TRUE), 1 connection x 2 callers, heads 0..3, clock 0..4
 CONSTANTS
   NC = 1
   Waiters = {w1, w2}
